@@ -26,7 +26,7 @@ type verifRecT struct {
 	commitFailed                    bool
 	stmts                           int // statements issued so far
 	failAt                          int // index of the failing statement, -1 = none
-	failKind                        int // 0 generic error, 1 duplicate key
+	dupAt                           int // index of a statement answered "duplicate key" (a handled outcome, not a failure), -1 = none
 	failedGeneric, failedDupe       bool
 	outsideTx                       int // statements issued with no transaction open
 	afterClose                      int // statements issued on a finished transaction
@@ -48,12 +48,12 @@ func (r *verifRecT) stmt(inTx bool) error {
 		r.outsideTx++
 	}
 	if idx == r.failAt {
-		if r.failKind == 1 {
-			r.failedDupe = true
-			return &ms.MySQLError{Number: 1062, Message: "duplicate"}
-		}
 		r.failedGeneric = true
 		return verifErrGeneric
+	}
+	if idx == r.dupAt {
+		r.failedDupe = true
+		return &ms.MySQLError{Number: 1062, Message: "duplicate"}
 	}
 	return nil
 }
@@ -284,11 +284,13 @@ func (verifRows) Next([]driver.Value) error { return io.EOF }
 // ---------------------------------------------------------------- harness
 
 func verifAdapter(nStmts int) *adapter {
-	verifRec = &verifRecT{failAt: -1}
+	verifRec = &verifRecT{failAt: -1, dupAt: -1}
 	f := verifNondetInt("failAt")
 	verifAssume(f >= -1 && f < nStmts)
 	verifRec.failAt = f
-	verifRec.failKind = verifChoose("failKind", 2)
+	d := verifNondetInt("dupAt")
+	verifAssume(d >= -1 && d < nStmts && (d != f || d == -1))
+	verifRec.dupAt = d
 	verifRec.commitFails = verifNondetBool("commitFails")
 	verifRec.affected = int64(verifChoose("rowsAffected", 2))
 	a := &adapter{}
